@@ -45,6 +45,8 @@ func FuzzSeeds() []FuzzSeed {
 	add(b["logoutReq"], 4)
 	add(b["logoutResp"], 3, 5)
 	out = append(out, FuzzSeed{gbEncEl, 6})
+	decl := []byte(`<?xml version="1.0" encoding="UTF-8" standalone="no"?>` + "\n")
+	out = append(out, FuzzSeed{append(append([]byte{}, decl...), b["sso"]...), 2}, FuzzSeed{append(append([]byte{}, decl...), b["logoutResp"]...), 3})
 	return out
 }
 
